@@ -250,6 +250,12 @@ func genRequest(c *h.Case, rc *routeCfg, k int, bigBody int64) *genReq {
 	if g.Framing != "none" && g.BodySize > 0 && rng.Intn(6) == 0 {
 		p.Early = true
 		p.DelayMs = 0
+		if rng.Intn(2) == 0 && p.Status != 204 && p.Status != 304 && g.Method != "HEAD" {
+			// a long answer that is still being sent while the upload goes on
+			p.PaceMs = 1 + rng.Intn(2)
+			p.Size = 256*1024 + int64(rng.Intn(512*1024))
+			g.BodySize = 300*1024 + int64(rng.Intn(700*1024))
+		}
 	}
 	g.Plan = p
 	g.PlanDesc = fmt.Sprintf("status=%d framing=%s size=%d class=%d slow=%v delay=%d headers=%d early=%v", p.Status, p.Framing, p.Size, p.Class, p.Slow, p.DelayMs, len(p.Headers), p.Early)
